@@ -156,6 +156,10 @@ func init() {
 				}
 			}
 		}},
+		Stream{"bind.elementAbsent", func(c *Ctx) {
+			// the binding element deleted, emptied or retyped (e.g. packed with an empty x5c array, no sig, null certInfo): never verifies
+			memberProduct(c, "bind.elementAbsent")
+		}},
 		Stream{"bind.otherKey", func(c *Ctx) {
 			// the binding element produced by a key other than the one the statement presents
 			for rep := 0; rep < c.N(3, 60); rep++ {
